@@ -612,6 +612,100 @@ pub fn main(opts: &Opts) {
             }
         }
     }
+    // Inside a tokio runtime a task has a cooperative budget (128 operations per poll): once it is used
+    // up, tokio's own primitives (`Mutex::lock`, channel receive, …) return Pending although they are
+    // ready. The hand-polled schedules above run outside any runtime and never see these extra
+    // suspension points. Here: n pipelined requests, the replies to all but the last are already on the
+    // wire, the future of the LAST request is polled exactly once inside a task (what
+    // `FutureExt::now_or_never`, a `select!` that loses, or an expiring `timeout` do) and dropped if it is
+    // pending; then every other request must still complete with its own reply, and so must a new one.
+    let replay_coop = opts
+        .replay
+        .as_ref()
+        .map(|p| std::fs::read_to_string(p).unwrap_or_default().contains("case\tcoop;"))
+        .unwrap_or(false);
+    if replay_coop || (opts.replay.is_none() && !opts.extra.iter().any(|e| e == "only-close")) {
+        let ns: &[usize] = if opts.thorough() { &[2, 10, 40, 50, 64, 100, 130, 300] } else { &[2, 10, 50, 100, 300] };
+        for &n in ns {
+            for polls in [1usize, 2, 3] {
+                let case = format!("coop;n={n};polls={polls}");
+                progress(&case);
+                let rt = tokio::runtime::Builder::new_current_thread().enable_all().build().unwrap();
+                let out: Result<(Vec<String>, String), String> = rt.block_on(async {
+                    let (t, peer) = mt::new();
+                    peer.deliver(mt::hello(&[mt::CAP_BASE10], 4));
+                    let mut s = Session::verif_new(t).await.map_err(|e| format!("session: {e}"))?;
+                    let mut futs = vec![];
+                    for _ in 0..n {
+                        futs.push(Box::pin(s.rpc::<Get, _>(|b| b.finish()).await.map_err(|e| format!("rpc: {e}"))?));
+                    }
+                    let ids: Vec<String> = peer.sent()[1..].iter().map(|m| mt::message_id_of(m).unwrap_or_default()).collect();
+                    let reply = |i: usize| {
+                        format!(
+                            "<rpc-reply xmlns=\"{}\" message-id=\"{}\"><data>{}</data></rpc-reply>]]>]]>",
+                            mt::BASE_NS,
+                            ids[i],
+                            100 + i
+                        )
+                    };
+                    for i in 0..n - 1 {
+                        peer.deliver(reply(i));
+                    }
+                    // a fresh task, so that the budget is the full one
+                    tokio::task::yield_now().await;
+                    let mut last = futs.pop().unwrap();
+                    let mut last_res = "dropped".to_string();
+                    for _ in 0..polls {
+                        let r = std::future::poll_fn(|cx| std::task::Poll::Ready(last.as_mut().poll(cx))).await;
+                        if let std::task::Poll::Ready(r) = r {
+                            last_res = match r {
+                                Ok(v) => format!("ok{v}"),
+                                Err(e) => format!("err:{e}"),
+                            };
+                            break;
+                        }
+                        tokio::task::yield_now().await;
+                    }
+                    drop(last);
+                    peer.deliver(reply(n - 1));
+                    let limit = std::time::Duration::from_secs(3);
+                    let mut res = vec![];
+                    let mut pending = 0;
+                    for f in futs {
+                        if pending >= 2 {
+                            res.push("skipped".to_string());
+                            continue;
+                        }
+                        res.push(match tokio::time::timeout(limit, f).await {
+                            Err(_) => {
+                                pending += 1;
+                                "pending".into()
+                            }
+                            Ok(Ok(v)) => format!("ok{v}"),
+                            Ok(Err(e)) => format!("err:{e}"),
+                        });
+                    }
+                    Ok((res, last_res))
+                });
+                progress_idle();
+                let verdict = match &out {
+                    Err(e) => format!("violation harness-{}", e.replace(' ', "-")),
+                    Ok((res, _)) => {
+                        let want: Vec<String> = (0..n - 1).map(|i| format!("ok{}", 100 + i)).collect();
+                        if *res == want {
+                            "ok".to_string()
+                        } else if let Some(i) = res.iter().position(|x| x == "pending") {
+                            format!("violation request-{i}-of-{n}-not-completed-after-abandoned-reader")
+                        } else {
+                            "violation foreign-or-unknown-reply-delivered".to_string()
+                        }
+                    }
+                };
+                sink.direct(&case, verdict);
+                sink.count("coop.cases");
+            }
+        }
+    }
     sink.write(opts, "sched");
 }
 
